@@ -48,14 +48,26 @@ pub struct Dev {
     pub live: Vec<(u64, u64)>,
     pub fail: bool,
     pub page: u64,
+    /// the whole request of every privcmd batch (accepted or not), in the order of the Foreign events of `log` (w9)
+    pub foreign: Vec<ForeignReq>,
 }
-pub static DEV: Mutex<Dev> = Mutex::new(Dev { refs: Vec::new(), log: Vec::new(), live: Vec::new(), fail: false, page: 4096 });
+/// one IOCTL_PRIVCMD_MMAPBATCH_V2 request as the device received it: target domain, the virtual address the frames
+/// are to be installed at, and the guest frame list `arr[0..num]`
+#[derive(Clone, Debug, PartialEq)]
+pub struct ForeignReq {
+    pub dom: u64,
+    pub addr: u64,
+    pub frames: Vec<u64>,
+}
+pub static DEV: Mutex<Dev> =
+    Mutex::new(Dev { refs: Vec::new(), log: Vec::new(), live: Vec::new(), fail: false, page: 4096, foreign: Vec::new() });
 
 pub fn dev_reset(fail: bool) {
     let mut d = DEV.lock().unwrap();
     d.log.clear();
     d.refs.clear();
     d.live.clear();
+    d.foreign.clear();
     d.fail = fail;
     d.page = unsafe { libc::sysconf(libc::_SC_PAGESIZE) } as u64;
 }
@@ -69,6 +81,10 @@ pub fn dev_take_named() -> (Vec<DevEv>, Vec<Vec<(u32, u32)>>) {
     let mut d = DEV.lock().unwrap();
     let r = std::mem::take(&mut d.refs);
     (std::mem::take(&mut d.log), r)
+}
+/// the privcmd requests received since the last dev_reset / dev_take_foreign (w9)
+pub fn dev_take_foreign() -> Vec<ForeignReq> {
+    std::mem::take(&mut DEV.lock().unwrap().foreign)
 }
 pub fn dev_live() -> u64 {
     DEV.lock().unwrap().live.len() as u64
@@ -126,6 +142,19 @@ pub fn dev_install() {
                 }
                 (b'P', 4) => {
                     let num = std::ptr::read_unaligned(arg as *const u32) as u64;
+                    // the whole request: domid u16 @4, addr @8, arr @16 -> num frame numbers (w9)
+                    let dom = std::ptr::read_unaligned(arg.add(4) as *const u16) as u64;
+                    let addr = std::ptr::read_unaligned(arg.add(8) as *const u64);
+                    let arr = std::ptr::read_unaligned(arg.add(16) as *const *const u64);
+                    let frames: Vec<u64> = if arr.is_null() {
+                        Vec::new()
+                    } else {
+                        (0..(num as usize).min(1 << 20)).map(|i| std::ptr::read_unaligned(arr.add(i))).collect()
+                    };
+                    if d.foreign.len() >= 64 {
+                        d.foreign.remove(0); // suites that never take the list: keep it bounded
+                    }
+                    d.foreign.push(ForeignReq { dom, addr, frames });
                     let ok = !d.fail;
                     d.log.push(DevEv::Foreign { count: num, ok });
                     if ok {
